@@ -14,6 +14,7 @@ import (
 
 	"github.com/jamespfennell/gtfs/constants"
 	"github.com/jamespfennell/gtfs/csv"
+	"github.com/jamespfennell/gtfs/verifhook"
 	"github.com/jamespfennell/gtfs/warnings"
 )
 
@@ -354,6 +355,7 @@ func parseAgencies(csv *csv.File) ([]Agency, []warnings.StaticWarning) {
 			continue
 		}
 		agencies = append(agencies, agency)
+		verifhook.Emit("static.accept", "agency.txt", csv.RowNumber(), len(agencies))
 	}
 	return agencies, w
 }
@@ -420,6 +422,7 @@ func parseRoutes(csv *csv.File, agencies []Agency) []Route {
 			continue
 		}
 		routes = append(routes, route)
+		verifhook.Emit("static.accept", "routes.txt", csv.RowNumber(), len(routes))
 	}
 	return routes
 }
@@ -485,6 +488,7 @@ func parseStops(csv *csv.File, inheritWheelchairBoarding bool) []Stop {
 		stopIdToIndex[stop.Id] = len(stops)
 		stops = append(stops, stop)
 		parentStopIds = append(parentStopIds, parentStopId)
+		verifhook.Emit("static.accept", "stops.txt", csv.RowNumber(), len(stops))
 	}
 	for i, parentStopId := range parentStopIds {
 		if parentStopId == "" {
@@ -508,6 +512,7 @@ func parseStops(csv *csv.File, inheritWheelchairBoarding bool) []Stop {
 			continue
 		}
 		stops[i].Parent = &stops[parentStopIndex]
+		verifhook.Emit("static.parent", i, parentStopIndex)
 	}
 
 	// Inherit wheelchair boarding from parent stops if specified.
@@ -577,6 +582,7 @@ func parseTransfers(csv *csv.File, stops []Stop) []Transfer {
 			Type:            parseTransferType(typeColumn.Read()),
 			MinTransferTime: parseInt32(transferTimeColumn.Read()),
 		})
+		verifhook.Emit("static.accept", "transfers.txt", csv.RowNumber(), len(transfers))
 	}
 	return transfers
 }
@@ -644,6 +650,7 @@ func parseCalendar(f *csv.File, m map[string]Service, timezone *time.Location) {
 			continue
 		}
 		m[service.Id] = service
+		verifhook.Emit("static.accept", "calendar.txt", f.RowNumber(), len(m))
 	}
 }
 
@@ -690,6 +697,7 @@ func parseCalendarDates(csv *csv.File, m map[string]Service, timezone *time.Loca
 			continue
 		}
 		m[service.Id] = service
+		verifhook.Emit("static.accept", "calendar_dates.txt", csv.RowNumber(), len(m))
 	}
 }
 
@@ -758,6 +766,7 @@ func parseScheduledTrips(csv *csv.File, routes []Route, services []Service, shap
 			continue
 		}
 		trips = append(trips, trip)
+		verifhook.Emit("static.accept", "trips.txt", csv.RowNumber(), len(trips))
 	}
 	return trips
 }
@@ -840,6 +849,7 @@ func parseScheduledStopTimes(csv *csv.File, stops []Stop, trips []ScheduledTrip)
 			continue
 		}
 		currentTrip.StopTimes = append(currentTrip.StopTimes, stopTime)
+		verifhook.Emit("static.accept", "stop_times.txt", csv.RowNumber(), len(currentTrip.StopTimes))
 	}
 	for _, trip := range idToTrip {
 		sort.Slice(trip.StopTimes, func(i, j int) bool {
@@ -916,6 +926,7 @@ func parseShapes(csv *csv.File) []Shape {
 			ShapePtSequence:   *shapePtSequence,
 			ShapeDistTraveled: shapeDistTraveled,
 		})
+		verifhook.Emit("static.accept", "shapes.txt", csv.RowNumber(), len(shapeIDToRowData[shapeID]))
 	}
 
 	shapes := make([]Shape, 0, len(shapeIDToRowData))
@@ -999,6 +1010,7 @@ func parseFrequencies(csv *csv.File, tripIDToScheduledTrip map[string]*Scheduled
 		}
 
 		scheduledTripOrNil.Frequencies = append(scheduledTripOrNil.Frequencies, frequency)
+		verifhook.Emit("static.accept", "frequencies.txt", csv.RowNumber(), len(scheduledTripOrNil.Frequencies))
 	}
 }
 
